@@ -57,14 +57,24 @@ func (v *vc) replayTemplate(ob *obligation, work string, rep map[string]interfac
 	os.WriteFile(ovFile, ov, 0o644)
 	ctx, cancel := context.WithTimeout(context.Background(), 400*time.Second)
 	defer cancel()
-	cmd := exec.CommandContext(ctx, "go", "test", "-overlay", ovFile, "-vet=off", "-timeout", "120s", "-count=1", "-v", "-run", "^TestGovcReplay$", "./"+dir+"/")
+	argv := []string{"test", "-overlay", ovFile, "-vet=off", "-timeout", "120s", "-count=1", "-v", "-run", "^TestGovcReplay$", "./" + dir + "/"}
+	raceNote := ""
+	if src, err := os.ReadFile(tmpl); err == nil && strings.Contains(string(src), "// govc-replay: race") {
+		// a witness for an unsynchronised access: run under the Go race detector, whose report is the failure
+		argv = append([]string{"test", "-race"}, argv[1:]...)
+		raceNote = " -race"
+	}
+	cmd := exec.CommandContext(ctx, "go", argv...)
 	cmd.Dir = repoRoot
 	cmd.Env = append(os.Environ(), "GOFLAGS=-mod=mod", "GOPROXY=off", "GOSUMDB=off", "GOTOOLCHAIN=local")
 	outb, _ := cmd.CombinedOutput()
 	outs := string(outb)
 	rep["template"] = tmpl
 	rep["template_output"] = firstLines(outs, 14)
-	rep["replay_cmd"] = "cd /repo && go test -overlay <overlay mapping " + testPath + " to " + tmpl + "> -vet=off -timeout 120s -count=1 -v -run '^TestGovcReplay$' ./" + dir + "/"
+	rep["replay_cmd"] = "cd /repo && go test" + raceNote + " -overlay <overlay mapping " + testPath + " to " + tmpl + "> -vet=off -timeout 120s -count=1 -v -run '^TestGovcReplay$' ./" + dir + "/"
+	if raceNote != "" && strings.Contains(outs, "WARNING: DATA RACE") {
+		return true, "witness template under the race detector: real code has a data race: " + strings.TrimSpace(firstLines(outs[strings.Index(outs, "WARNING: DATA RACE"):], 12))
+	}
 	switch {
 	case strings.Contains(outs, "GOVC-REPLAY-ENSURES-FALSE"):
 		return true, "witness template: real code violates the contract clause: " + lineWith(outs, "GOVC-REPLAY-ENSURES-FALSE")
